@@ -35,13 +35,20 @@ def _mkerr(kind):
         return RuntimeError('injected arbitrary exception')
     if kind == 'notconn':
         return OSError(errno.ENOTCONN, 'Transport endpoint is not connected')
+    if kind == 'reset-braces':
+        # error text with format-string metacharacters (a proxy / VPN / filename can put anything there)
+        return OSError(errno.ECONNRESET, 'Connection reset by peer {tunnel=7} {} {0!r}')
+    if kind == 'eintr-partial':
+        return OSError(errno.EINTR, 'Interrupted system call')
+    if kind == 'eagain-partial':
+        return OSError(errno.EAGAIN, 'Resource temporarily unavailable')
     if kind == 'sslerr':
         import ssl
         return ssl.SSLError(1, '[SSL] injected record failure')
     raise ValueError(kind)
 
 
-BREAKING = ('reset', 'pipe')
+BREAKING = ('reset', 'pipe', 'reset-braces')
 
 
 class Conn(object):
@@ -193,6 +200,7 @@ class World(object):
         self.blocked_with_pending = []   # C18 hook invariant witnesses
         self.faults_hit = []
         self.yield_hook = None
+        self.recv_hook = None
         self.thread_name = None
 
     # clock object interface (lomond.session.time / lomond.events.time)
@@ -296,6 +304,12 @@ class SimSocket(object):
             w.rec('sendall_fault', self.sid, (f, data))
             if f in BREAKING:
                 self.conn.broken = True
+            if f.endswith('-partial') and len(data) > 1:
+                # part of the buffer reached the wire before the call was interrupted
+                part = data[:max(1, len(data) // 2)]
+                w.rec('send_part', self.sid, part)
+                self.conn.tx += part
+                self.conn.server.on_write(part)
             raise _mkerr(f)
         if self.conn.broken:
             w.rec('sendall_fault', self.sid, ('pipe', data))
@@ -319,6 +333,9 @@ class SimSocket(object):
     def _recv(self, count, blocking_timeout):
         w = self.world
         w.step()
+        if w.recv_hook is not None:
+            # stands for another thread acting while this one is about to block in recv()
+            w.recv_hook(self)
         f = w.fault('recv')
         if self.closed:
             w.rec('recv_closed', self.sid, None)
@@ -710,6 +727,7 @@ class ScriptServer(object):
       ('await_frames', n) block until n client frames arrived
       ('echo_close',)     send Close echoing the client's close code
       ('pong_mode', delay|None, until|None)  answer client pings from now on
+      ('drip', first, repeat, n, dt)  send `first` now and `repeat` n times every dt (event-less traffic)
 
     Everything with a future send time sits in a time-ordered queue and is put on the
     wire only when the virtual clock gets there, so timed data and reactive replies
@@ -834,6 +852,12 @@ class ScriptServer(object):
             elif op == 'echo_close':
                 code = self.close_frame['payload'][:2] if self.close_frame else b''
                 self.send_at(self.t_send, 'data', refws.enc_frame(8, code))
+            elif op == 'drip':
+                # ('drip', first_bytes, repeat_bytes, n, dt): traffic that keeps the socket readable
+                # (e.g. non-final fragments) at regular instants
+                self.send_at(self.t_send, 'data', st[1])
+                for j in range(1, st[3] + 1):
+                    self.send_at(self.t_send + j * st[4], 'data', st[2])
             elif op == 'pong_mode':
                 self.pong_delay = st[1]
                 self.pong_until = st[2] if len(st) > 2 else None
